@@ -1,6 +1,7 @@
 (* Proofs for Model/ConnFail.v  (property C10).  The statements used by the property are
    re-stated in Props/C10.v and closed there by [exact]. *)
 From SV Require Import Base.Prelude Base.Bytes Model.ConnFail.
+From Coq Require Import Permutation.
 Open Scope N_scope.
 
 (* ---------- ntake / parse_frame ---------- *)
@@ -151,6 +152,34 @@ Proof.
   intros r0 H. destruct (Hs r0 H) as [H1|[H1|H1]]; [tauto|tauto|]. right; right. apply in_or_app; tauto.
 Qed.
 
+(* ---------- more accounting: permutations, insertion in the middle ---------- *)
+
+Lemma acct_perm p p' d s c : Permutation p p' -> Acct p d s c -> Acct p' d s c.
+Proof.
+  intros HP (Hp & Hd & Hps & Hds & Hs).
+  assert (Hin : forall r, In r p' -> In r p) by (intros r H; eapply Permutation_in; [symmetry; exact HP|exact H]).
+  repeat split.
+  - eapply Permutation_NoDup; eassumption.
+  - exact Hd.
+  - apply Hps. apply Hin. exact H.
+  - apply Hps. apply Hin. exact H.
+  - exact Hds.
+  - intros r H. destruct (Hs r H) as [H1|[H1|H1]]; [tauto| |tauto]. right; left. eapply Permutation_in; eassumption.
+Qed.
+
+(* a fresh request enters a container in the middle of the pending list *)
+Lemma acct_submit_at A B r d s c : Acct (A ++ B) d s c -> ~ In r s -> Acct (A ++ r :: B) d (s ++ [r]) c.
+Proof.
+  intros H Hr. eapply acct_perm; [|apply acct_submit; eassumption].
+  rewrite <- app_assoc. apply Permutation_app_head. symmetry. apply Permutation_cons_append.
+Qed.
+
+(* a request moves from one container to another *)
+Lemma acct_move A B C r d s c : Acct (A ++ B ++ r :: C) d s c -> Acct (A ++ r :: B ++ C) d s c.
+Proof.
+  apply acct_perm. apply Permutation_app_head. symmetry. apply Permutation_middle.
+Qed.
+
 (* ---------- handler list lemmas ---------- *)
 Lemma find_stream_split s h r : find_stream s h = Some r ->
   exists h1 h2, h = h1 ++ (s, r) :: h2 /\ remove_stream s h = h1 ++ h2.
@@ -206,7 +235,8 @@ Lemma fault_fields e st :
   c_notices (fault e st) = c_notices st /\ c_done (fault e st) = c_done st /\
   c_submitted (fault e st) = c_submitted st /\ c_cancelled (fault e st) = c_cancelled st /\
   c_written (fault e st) = c_written st /\ c_received (fault e st) = c_received st /\
-  c_consumed (fault e st) = c_consumed st /\ c_control (fault e st) = c_control st.
+  c_consumed (fault e st) = c_consumed st /\ c_control (fault e st) = c_control st /\
+  c_reserved (fault e st) = c_reserved st.
 Proof. unfold fault. destruct (c_status st); cbn; repeat split; reflexivity. Qed.
 
 Lemma fault_status e st :
@@ -219,7 +249,8 @@ Lemma complete_fields r o st :
   c_notices (complete r o st) = c_notices st /\ c_done (complete r o st) = c_done st ++ [(r, o)] /\
   c_submitted (complete r o st) = c_submitted st /\ c_cancelled (complete r o st) = c_cancelled st /\
   c_written (complete r o st) = c_written st /\ c_received (complete r o st) = c_received st /\
-  c_consumed (complete r o st) = c_consumed st /\ c_control (complete r o st) = c_control st.
+  c_consumed (complete r o st) = c_consumed st /\ c_control (complete r o st) = c_control st /\
+  c_reserved (complete r o st) = c_reserved st.
 Proof.
   unfold complete. cbn [c_ka set_done].
   destruct (c_ka st) as [k|]; [destruct (k =? r); [destruct o|]|];
@@ -241,12 +272,20 @@ Definition frame_ok (f : frame) : Prop :=
   List.length (f_hdr f) = 9%nat /\ N.of_nat (List.length (f_body f)) = f_len f /\
   N.land (f_version f) 128 = 128 /\ N.land (f_version f) 127 = 4 /\ valid_opcode (f_opcode f) = true.
 
+(* what the status says about the containers *)
+Definition status_ok (stt : status) (h : list (N * N)) (q rs : list N) : Prop :=
+  match stt with
+  | Open | TearingDown _ => True
+  | Draining _ => h = []
+  | Broken _ => h = [] /\ q = [] /\ rs = []
+  end.
+
 Record Inv (st : conn) : Prop := mk_Inv {
   inv_acct : Acct (pending_rids st) (c_done st) (c_submitted st) (c_cancelled st);
   inv_streams : NoDup (map fst (c_handlers st));
   inv_orph : forall s, In s (map fst (c_handlers st)) -> ~ In s (c_orphans st);
   inv_notices : forall r, In r (c_notices st) -> In r (c_cancelled st);
-  inv_broken : forall e, c_status st = Broken e -> c_handlers st = [] /\ c_queue st = [];
+  inv_status : status_ok (c_status st) (c_handlers st) (c_queue st) (c_reserved st);
   inv_written : forall s r, In (s, r) (c_handlers st) -> In (s, r) (c_written st);
   inv_resp : forall r f, In (r, Resp f) (c_done st) -> In f (c_consumed st) /\ In (f_stream f, r) (c_written st);
   inv_recv : c_received st = concat (map f_raw (c_consumed st)) ++ c_rbuf st;
@@ -260,19 +299,24 @@ Proof.
   - constructor.
   - tauto.
   - tauto.
-  - discriminate.
+  - exact Logic.I.
   - tauto.
   - tauto.
   - reflexivity.
   - constructor.
 Qed.
 
-(* only the status changes, and not to Broken *)
+(* a status change that is compatible with unchanged containers *)
+Lemma status_ok_fault e stt h q rs :
+  status_ok stt h q rs -> status_ok (match stt with Open => TearingDown e | x => x end) h q rs.
+Proof. destruct stt; cbn; tauto. Qed.
+
+(* only the status changes, and not to Draining/Broken *)
 Lemma inv_fault e st : Inv st -> Inv (fault e st).
 Proof.
-  intros [A B C D E F G H I]. destruct (fault_fields e st) as (E1&E2&E3&E4&E5&E6&E7&E8&E9&E10&E11&E12).
-  constructor; unfold pending_rids; rewrite ?E1, ?E2, ?E3, ?E4, ?E5, ?E6, ?E7, ?E8, ?E9, ?E10, ?E11; try assumption.
-  intros e0 H0. rewrite fault_status in H0. destruct (c_status st) eqn:Es; try discriminate. apply (E e0). exact H0.
+  intros [A B C D E F G H I]. destruct (fault_fields e st) as (E1&E2&E3&E4&E5&E6&E7&E8&E9&E10&E11&E12&E13).
+  constructor; unfold pending_rids; rewrite ?E1, ?E2, ?E3, ?E4, ?E5, ?E6, ?E7, ?E8, ?E9, ?E10, ?E11, ?E13; try assumption.
+  rewrite fault_status. unfold status_ok in *. destruct (c_status st); try exact E; exact Logic.I.
 Qed.
 
 (* request r is taken out of the containers (pending A ++ r :: B before) and completed *)
@@ -282,7 +326,7 @@ Lemma inv_complete st r o A B :
   NoDup (map fst (c_handlers st)) ->
   (forall s, In s (map fst (c_handlers st)) -> ~ In s (c_orphans st)) ->
   (forall r, In r (c_notices st) -> In r (c_cancelled st)) ->
-  (forall e, c_status st = Broken e -> c_handlers st = [] /\ c_queue st = []) ->
+  status_ok (c_status st) (c_handlers st) (c_queue st) (c_reserved st) ->
   (forall s r, In (s, r) (c_handlers st) -> In (s, r) (c_written st)) ->
   (forall r f, In (r, Resp f) (c_done st) -> In f (c_consumed st) /\ In (f_stream f, r) (c_written st)) ->
   (forall f, o = Resp f -> In f (c_consumed st) /\ In (f_stream f, r) (c_written st)) ->
@@ -291,12 +335,12 @@ Lemma inv_complete st r o A B :
   Inv (complete r o st).
 Proof.
   intros Hp A0 B0 C D E F G Go H I.
-  destruct (complete_fields r o st) as (E1&E2&E3&E4&E5&E6&E7&E8&E9&E10&E11&E12).
-  constructor; unfold pending_rids; rewrite ?E1, ?E2, ?E3, ?E4, ?E5, ?E6, ?E7, ?E8, ?E9, ?E10, ?E11; try assumption.
+  destruct (complete_fields r o st) as (E1&E2&E3&E4&E5&E6&E7&E8&E9&E10&E11&E12&E13).
+  constructor; unfold pending_rids; rewrite ?E1, ?E2, ?E3, ?E4, ?E5, ?E6, ?E7, ?E8, ?E9, ?E10, ?E11, ?E13; try assumption.
   - fold (pending_rids st). rewrite Hp. apply acct_complete. exact A0.
-  - intros e0 H0. destruct (complete_status r o st) as [Hs|[Hs1 Hs2]].
-    + rewrite Hs in H0. apply (E e0). exact H0.
-    + rewrite Hs2 in H0. discriminate.
+  - destruct (complete_status r o st) as [Hs|[Hs1 Hs2]].
+    + rewrite Hs. exact E.
+    + rewrite Hs2. exact Logic.I.
   - intros r0 f Hin. apply in_app_or in Hin. destruct Hin as [Hin|[Hin|[]]].
     + apply G. exact Hin.
     + inversion Hin; subst. apply Go. reflexivity.
@@ -328,14 +372,14 @@ Proof.
     intros s Hs Hin. apply nremove_incl in Hin. eapply C; eassumption. }
   destruct (find_stream (f_stream f) (c_handlers st)) as [r|] eqn:Ef.
   - destruct (find_stream_split _ _ _ Ef) as (h1 & h2 & Eh & Er).
-    apply inv_complete with (A := map snd h1) (B := map snd h2 ++ c_queue st); cbn.
+    apply inv_complete with (A := map snd h1) (B := map snd h2 ++ c_queue st ++ c_reserved st); cbn.
     + unfold pending_rids. cbn. rewrite Er, map_app, <- app_assoc. reflexivity.
     + unfold pending_rids in A. rewrite Eh, map_snd_remove, <- app_assoc in A. exact A.
     + rewrite Er. rewrite Eh, map_fst_remove in B. rewrite map_app. eapply NoDup_remove_1. exact B.
     + intros s Hs. apply C. rewrite Er in Hs. rewrite Eh, map_fst_remove. rewrite map_app in Hs.
       apply in_app_or in Hs. apply in_or_app. destruct Hs; [left|right; right]; assumption.
     + exact D.
-    + intros e He. destruct (E e He) as [E1 _]. rewrite E1 in Ef. discriminate.
+    + unfold status_ok in *. destruct (c_status st); try exact Logic.I; [rewrite E in Ef|destruct E as [E _]; rewrite E in Ef]; discriminate.
     + intros s r0 Hin. apply F. rewrite Er in Hin. rewrite Eh. apply in_app_or in Hin. apply in_or_app.
       destruct Hin; [left|right; right]; assumption.
     + exact HG.
@@ -357,29 +401,52 @@ Qed.
 Lemma is_open_status st : is_open st = true <-> c_status st = Open.
 Proof. unfold is_open. destruct (c_status st); split; intros; try discriminate; reflexivity. Qed.
 
+Lemma open_status_ok st h q rs : is_open st = true -> status_ok (c_status st) h q rs.
+Proof. intros H. apply is_open_status in H. rewrite H. exact Logic.I. Qed.
+
+Lemma nremove_split r l : In r l -> exists l1 l2, l = l1 ++ r :: l2 /\ nremove r l = l1 ++ l2.
+Proof.
+  induction l as [|x t IH]; cbn [In nremove]; [tauto|].
+  destruct (x =? r) eqn:E.
+  - apply N.eqb_eq in E. subst x. intros _. exists [], t. split; reflexivity.
+  - apply N.eqb_neq in E. intros [H|H]; [congruence|]. destruct (IH H) as (l1 & l2 & -> & E2).
+    exists (x :: l1), l2. rewrite E2. split; reflexivity.
+Qed.
+
 Lemma inv_step st l st' : Inv st -> step st l = Some st' -> Inv st'.
 Proof.
   intros HI Hs. pose proof HI as [A B C D E F G H I].
-  destruct l as [r|r|so|bs| |k| |r| |]; unfold step in Hs.
-  - (* Submit *)
+  destruct l as [r|r|r|so|bs| |k| |r| |]; unfold step in Hs.
+  - (* Reserve *)
     destruct (nmem r (c_submitted st)) eqn:En; [discriminate|]. apply nmem_false in En.
-    change (is_open (set_submitted (c_submitted st ++ [r]) st)) with (is_open st) in Hs.
-    destruct (is_open st) eqn:Eo; injection Hs as <-.
-    + constructor; cbn; try assumption.
-      * unfold pending_rids. cbn. rewrite app_assoc. apply acct_submit; assumption.
-      * intros e He. apply is_open_status in Eo. rewrite Eo in He. discriminate.
+    change (chan_closed (set_submitted (c_submitted st ++ [r]) st)) with (chan_closed st) in Hs.
+    destruct (chan_closed st) eqn:Ec; injection Hs as <-.
     + apply inv_complete with (A := pending_rids st) (B := []); cbn; try assumption.
       * unfold pending_rids. cbn. rewrite app_nil_r. reflexivity.
-      * (* refused at once: account it as entering and leaving *)
-        pose proof (acct_submit _ r _ _ _ A En) as A1. exact A1.
+      * exact (acct_submit _ r _ _ _ A En).
       * intros f Hf. discriminate.
+    + constructor; cbn; try assumption.
+      * unfold pending_rids. cbn. rewrite !app_assoc. apply acct_submit; [|assumption].
+        rewrite <- !app_assoc. exact A.
+      * unfold status_ok, chan_closed in *. destruct (c_status st); try exact Logic.I; discriminate.
+  - (* Push *)
+    destruct (nmem r (c_reserved st)) eqn:En; [|discriminate]. apply nmem_In in En. injection Hs as <-.
+    destruct (nremove_split _ _ En) as (l1 & l2 & El & Er).
+    constructor; cbn; try assumption.
+    + unfold pending_rids in *. cbn. rewrite Er. rewrite El in A.
+      (* H ++ Q ++ l1 ++ r :: l2  ~  H ++ (Q ++ [r]) ++ l1 ++ l2 *)
+      eapply acct_perm; [|exact A]. apply Permutation_app_head. rewrite <- app_assoc. apply Permutation_app_head.
+      cbn. symmetry. apply Permutation_middle.
+    + unfold status_ok in *. destruct (c_status st); try exact Logic.I; try exact E.
+      destruct E as (_ & _ & E3). rewrite E3 in En. destruct En.
   - (* KaTick *)
     destruct (nmem r (c_submitted st)) eqn:En; [discriminate|]. apply nmem_false in En.
     destruct (is_open st) eqn:Eo; cbn [negb] in Hs; [|discriminate].
     destruct (c_ka st); [discriminate|]. injection Hs as <-.
     constructor; cbn; try assumption.
-    + unfold pending_rids. cbn. rewrite app_assoc. apply acct_submit; assumption.
-    + intros e He. apply is_open_status in Eo. rewrite Eo in He. discriminate.
+    + unfold pending_rids in *. cbn. rewrite <- app_assoc. cbn.
+      rewrite app_assoc. apply acct_submit_at; [|assumption]. rewrite <- app_assoc. exact A.
+    + apply open_status_ok. exact Eo.
   - (* WriterTake *)
     destruct (is_open st) eqn:Eo; cbn [negb] in Hs; [|discriminate].
     destruct (c_queue st) as [|r q] eqn:Eq; [discriminate|].
@@ -393,17 +460,17 @@ Proof.
       * rewrite map_app. cbn. apply NoDup_snoc; assumption.
       * intros s0 Hs0. rewrite map_app in Hs0. apply in_app_or in Hs0. destruct Hs0 as [Hs0|[<-|[]]]; [apply C; exact Hs0|exact Ec3].
       * exact D.
-      * intros e He. apply is_open_status in Eo. rewrite Eo in He. discriminate.
+      * apply open_status_ok. exact Eo.
       * intros s0 r0 Hin. apply in_app_or in Hin. apply in_or_app. destruct Hin as [Hin|[Hin|[]]]; [left; apply F; exact Hin|right; left; exact Hin].
       * intros r0 f Hin. destruct (G r0 f Hin). split; [assumption|apply in_or_app; tauto].
       * exact H.
       * exact I.
     + destruct (32768 <=? N.of_nat (List.length (c_handlers st) + List.length (c_orphans st))); [|discriminate].
       injection Hs as <-.
-      apply inv_complete with (A := map snd (c_handlers st)) (B := q); cbn; try assumption.
+      apply inv_complete with (A := map snd (c_handlers st)) (B := q ++ c_reserved st); cbn; try assumption.
       * reflexivity.
       * unfold pending_rids in A. rewrite Eq in A. exact A.
-      * intros e He. apply is_open_status in Eo. rewrite Eo in He. discriminate.
+      * apply open_status_ok. exact Eo.
       * intros f Hf. discriminate.
   - (* Recv *)
     destruct (is_open st) eqn:Eo; injection Hs as <-; [|exact HI].
@@ -438,7 +505,7 @@ Proof.
         -- eapply C; [|exact Hin]. apply in_app_or in Hs0. apply in_or_app. destruct Hs0; [left|right; right]; assumption.
         -- apply NoDup_remove_2 in B. apply B. exact Hs0.
       * intros r0 Hin. apply D. right. exact Hin.
-      * intros e He. apply is_open_status in Eo. rewrite Eo in He. discriminate.
+      * apply open_status_ok. exact Eo.
       * intros s0 r0 Hin. apply F. rewrite Er in Hin. rewrite Eh. apply in_app_or in Hin. apply in_or_app.
         destruct Hin; [left|right; right]; assumption.
       * exact G.
@@ -446,30 +513,36 @@ Proof.
       * exact I.
     + constructor; cbn; try assumption. intros r0 Hin. apply D. right. exact Hin.
   - (* TdStep *)
-    destruct (c_status st) as [|e|e] eqn:Es; try discriminate.
-    destruct (c_queue st) as [|r q] eqn:Eq.
-    + destruct (c_handlers st) as [|[s r] h] eqn:Eh; injection Hs as <-.
-      * constructor; cbn; rewrite ?Eh, ?Eq; try assumption.
-        -- unfold pending_rids in *. cbn. rewrite Eh, Eq in A. exact A.
-        -- intros e0 He0. split; reflexivity.
-      * apply inv_complete with (A := []) (B := map snd h ++ c_queue st); cbn.
+    destruct (c_status st) as [|e|e|e] eqn:Es; try discriminate.
+    + (* TearingDown: fail a handler, or close the channel *)
+      destruct (c_handlers st) as [|[s r] h] eqn:Eh; injection Hs as <-.
+      * constructor; cbn; rewrite ?Eh; try assumption.
+        -- unfold pending_rids in *. cbn. rewrite Eh in *. exact A.
+        -- reflexivity.
+      * apply inv_complete with (A := []) (B := map snd h ++ c_queue st ++ c_reserved st); cbn.
         -- unfold pending_rids. cbn. reflexivity.
         -- unfold pending_rids in A. rewrite Eh in A. cbn in A. exact A.
         -- cbn in B. inversion B; assumption.
         -- intros s0 Hs0. apply C. cbn. right. exact Hs0.
         -- exact D.
-        -- intros e0 He0. rewrite Es in He0. discriminate.
+        -- rewrite Es. exact Logic.I.
         -- intros s0 r0 Hin. apply F. right. exact Hin.
         -- exact G.
         -- intros f Hf. discriminate.
         -- exact H.
         -- exact I.
-    + injection Hs as <-.
-      apply inv_complete with (A := map snd (c_handlers st)) (B := q); cbn; try assumption.
-      * reflexivity.
-      * unfold pending_rids in A. rewrite Eq in A. exact A.
-      * intros e0 He0. rewrite Es in He0. discriminate.
-      * intros f Hf. discriminate.
+    + (* Draining: fail a delivered task, or finish *)
+      cbn in E.
+      destruct (c_queue st) as [|r q] eqn:Eq.
+      * destruct (c_reserved st) as [|x xs] eqn:Er; [injection Hs as <-|discriminate].
+        constructor; cbn; try assumption.
+        repeat split; try assumption; reflexivity.
+      * injection Hs as <-.
+        apply inv_complete with (A := map snd (c_handlers st)) (B := q ++ c_reserved st); cbn; try assumption.
+        -- reflexivity.
+        -- unfold pending_rids in A. rewrite Eq in A. exact A.
+        -- rewrite Es. cbn. exact E.
+        -- intros f Hf. discriminate.
 Qed.
 
 Lemma inv_run ls : forall st st', Inv st -> run st ls = Some st' -> Inv st'.
@@ -490,36 +563,67 @@ Proof.
 Qed.
 
 (* ---------- what a step can do once the connection is no longer open ---------- *)
-Definition closing (st : conn) : Prop := c_status st <> Open.
+Definition closing (e : err_kind) (st : conn) : Prop :=
+  c_status st = TearingDown e \/ c_status st = Draining e \/ c_status st = Broken e.
 
-Lemma drain_not_open fuel st : is_open st = false -> drain fuel st = st.
-Proof. intros H. destruct fuel; cbn [drain]; [reflexivity|]. rewrite H. reflexivity. Qed.
+Lemma closing_not_open e st : closing e st -> is_open st = false.
+Proof. unfold is_open. intros [H|[H|H]]; rewrite H; reflexivity. Qed.
 
-(* In a non-open state a step keeps the error, never re-opens, only moves requests from the
-   containers to [c_done] with a BrokenConnection-class outcome. *)
-Lemma step_closing st l st' e :
-  (c_status st = TearingDown e \/ c_status st = Broken e) -> step st l = Some st' ->
-  (c_status st' = TearingDown e \/ c_status st' = Broken e) /\
-  (forall r o, In (r, o) (c_done st) -> In (r, o) (c_done st')) /\
-  (forall r, In r (pending_rids st) ->
-     In r (pending_rids st') \/ exists o, In (r, o) (c_done st') /\ broken_class o = true) /\
-  (forall r, In r (pending_rids st') -> In r (pending_rids st)).
+Lemma complete_closing e r o st : closing e st -> c_status (complete r o st) = c_status st.
 Proof.
-  intros Hst Hs.
-  assert (Hno : is_open st = false).
-  { unfold is_open. destruct Hst as [-> | ->]; reflexivity. }
-  assert (Hcs : forall r o, c_status (complete r o st) = c_status st).
-  { intros r o. destruct (complete_status r o st) as [H|[H _]]; [exact H|]. destruct Hst as [H1|H1]; rewrite H1 in H; discriminate. }
-  destruct l as [r|r|so|bs| |k| |r| |]; unfold step in Hs.
-  - destruct (nmem r (c_submitted st)); [discriminate|].
-    change (is_open (set_submitted (c_submitted st ++ [r]) st)) with (is_open st) in Hs. rewrite Hno in Hs.
-    injection Hs as <-.
-    set (s1 := set_submitted (c_submitted st ++ [r]) st).
-    destruct (complete_fields r FailChannel s1) as (E1&E2&E3&E4&E5&E6&E7&E8&E9&E10&E11&E12).
-    assert (Hs1 : c_status (complete r FailChannel s1) = c_status st).
-    { destruct (complete_status r FailChannel s1) as [H|[H _]]; [exact H|]. cbn in H. destruct Hst as [H1|H1]; rewrite H1 in H; discriminate. }
-    unfold pending_rids. rewrite Hs1, E2, E4, E6. cbn. repeat split; try tauto.
-    intros r0 o Hin. apply in_or_app. left. exact Hin.
+  intros Hc. destruct (complete_status r o st) as [H|[H _]]; [exact H|].
+  destruct Hc as [H1|[H1|H1]]; rewrite H1 in H; discriminate.
+Qed.
+
+(* In a non-open state a step keeps the error, never re-opens, completes requests only with a
+   BrokenConnection-class outcome and never loses one. *)
+Lemma step_closing st l st' e :
+  closing e st -> step st l = Some st' ->
+  closing e st' /\
+  (forall r o, In (r, o) (c_done st) -> In (r, o) (c_done st')) /\
+  (forall r o, In (r, o) (c_done st') -> In (r, o) (c_done st) \/ broken_class o = true) /\
+  (forall r, In r (pending_rids st) ->
+     In r (pending_rids st') \/ exists o, In (r, o) (c_done st') /\ broken_class o = true).
+Proof.
+  intros Hst Hs. pose proof (closing_not_open _ _ Hst) as Hno.
+  (* generic shape of "complete r o s1" where s1 differs from st in containers only *)
+  assert (Hcomp : forall r o s1, c_status s1 = c_status st -> c_done s1 = c_done st -> broken_class o = true ->
+            closing e (complete r o s1) /\
+            (forall r0 o0, In (r0, o0) (c_done st) -> In (r0, o0) (c_done (complete r o s1))) /\
+            (forall r0 o0, In (r0, o0) (c_done (complete r o s1)) -> In (r0, o0) (c_done st) \/ broken_class o0 = true) /\
+            In (r, o) (c_done (complete r o s1))).
+  { intros r o s1 Hs1 Hd1 Hb.
+    assert (Hc1 : closing e s1) by (unfold closing in *; rewrite Hs1; exact Hst).
+    destruct (complete_fields r o s1) as (_&_&_&_&_&E6&_).
+    repeat split.
+    - unfold closing. rewrite (complete_closing e r o s1 Hc1), Hs1. exact Hst.
+    - intros r0 o0 Hin. rewrite E6, Hd1. apply in_or_app. left. exact Hin.
+    - intros r0 o0 Hin. rewrite E6, Hd1 in Hin. apply in_app_or in Hin. destruct Hin as [Hin|[Hin|[]]]; [left; exact Hin|].
+      inversion Hin; subst. right. exact Hb.
+    - rewrite E6. apply in_or_app. right. left. reflexivity. }
+  destruct l as [r|r|r|so|bs| |k| |r| |]; unfold step in Hs.
+  - (* Reserve *)
+    destruct (nmem r (c_submitted st)); [discriminate|].
+    change (chan_closed (set_submitted (c_submitted st ++ [r]) st)) with (chan_closed st) in Hs.
+    destruct (chan_closed st); injection Hs as <-.
+    + set (s1 := set_submitted (c_submitted st ++ [r]) st).
+      destruct (Hcomp r FailChannel s1 eq_refl eq_refl eq_refl) as (H1 & H2 & H3 & _).
+      destruct (complete_fields r FailChannel s1) as (_&E2&_&E4&_&_&_&_&_&_&_&_&E13).
+      repeat split; try assumption. intros r0 Hin. left. unfold pending_rids in *. rewrite E2, E4, E13. exact Hin.
+    + repeat split; try (cbn; tauto).
+      intros r0 Hin. left. unfold pending_rids in *. cbn. rewrite !app_assoc. apply in_or_app. left.
+      rewrite <- !app_assoc. exact Hin.
+  - (* Push *)
+    destruct (nmem r (c_reserved st)) eqn:En; [|discriminate]. apply nmem_In in En. injection Hs as <-.
+    destruct (nremove_split _ _ En) as (l1 & l2 & El & Er).
+    repeat split; try (cbn; tauto).
+    intros r0 Hin. left. unfold pending_rids in *. cbn. rewrite Er. rewrite El in Hin.
+    apply in_app_or in Hin. apply in_or_app. destruct Hin as [Hin|Hin]; [left; exact Hin|right].
+    apply in_app_or in Hin. apply in_or_app. destruct Hin as [Hin|Hin]; [left; apply in_or_app; left; exact Hin|].
+    apply in_app_or in Hin. destruct Hin as [Hin|[<-|Hin]].
+    + right. apply in_or_app. left. exact Hin.
+    + left. apply in_or_app. right. left. reflexivity.
+    + right. apply in_or_app. right. exact Hin.
   - destruct (nmem r (c_submitted st)); [discriminate|]. rewrite Hno in Hs. discriminate.
   - rewrite Hno in Hs. discriminate.
   - rewrite Hno in Hs. injection Hs as <-. repeat split; tauto.
@@ -529,51 +633,50 @@ Proof.
   - destruct (nmem r (c_submitted st) && negb (nmem r (map fst (c_done st))) && negb (nmem r (c_cancelled st))); [|discriminate].
     injection Hs as <-. unfold pending_rids. cbn. repeat split; tauto.
   - rewrite Hno in Hs. discriminate.
-  - destruct Hst as [Hst|Hst]; rewrite Hst in Hs; [|discriminate].
-    destruct (c_queue st) as [|r q] eqn:Eq.
-    + destruct (c_handlers st) as [|[s r] h] eqn:Eh; injection Hs as <-.
-      * unfold pending_rids. cbn. rewrite Eh, Eq. cbn. repeat split; tauto.
+  - (* TdStep *)
+    destruct (c_status st) as [|e0|e0|e0] eqn:Es; try discriminate.
+    + assert (e0 = e) by (destruct Hst as [H|[H|H]]; congruence). subst e0.
+      destruct (c_handlers st) as [|[s r] h] eqn:Eh; injection Hs as <-.
+      * unfold closing, pending_rids. cbn. rewrite Eh. repeat split; tauto.
       * set (s1 := set_handlers h st).
-        destruct (complete_fields r (FailBroken e) s1) as (E1&E2&E3&E4&E5&E6&E7&E8&E9&E10&E11&E12).
-        assert (Hs1 : c_status (complete r (FailBroken e) s1) = c_status st).
-        { destruct (complete_status r (FailBroken e) s1) as [H|[H _]]; [exact H|]. cbn in H. rewrite Hst in H. discriminate. }
-        unfold pending_rids. rewrite Hs1, E2, E4, E6, Hst. cbn. rewrite Eq, Eh. cbn. repeat split.
-        -- left. reflexivity.
-        -- intros r0 o Hin. apply in_or_app. left. exact Hin.
-        -- intros r0 [<-|Hin].
-           ++ right. exists (FailBroken e). split; [apply in_or_app; right; left; reflexivity|reflexivity].
-           ++ left. exact Hin.
-        -- intros r0 Hin. right. exact Hin.
-    + injection Hs as <-. set (s1 := set_queue q st).
-      destruct (complete_fields r FailChannel s1) as (E1&E2&E3&E4&E5&E6&E7&E8&E9&E10&E11&E12).
-      assert (Hs1 : c_status (complete r FailChannel s1) = c_status st).
-      { destruct (complete_status r FailChannel s1) as [H|[H _]]; [exact H|]. cbn in H. rewrite Hst in H. discriminate. }
-      unfold pending_rids. rewrite Hs1, E2, E4, E6, Hst. cbn. rewrite Eq. repeat split.
-      * left. reflexivity.
-      * intros r0 o Hin. apply in_or_app. left. exact Hin.
-      * intros r0 Hin. apply in_app_or in Hin. destruct Hin as [Hin|[<-|Hin]].
+        destruct (Hcomp r (FailBroken e) s1 Es eq_refl eq_refl) as (H1 & H2 & H3 & H4).
+        destruct (complete_fields r (FailBroken e) s1) as (_&E2&_&E4&_&_&_&_&_&_&_&_&E13).
+        repeat split; try assumption.
+        intros r0 Hin. unfold pending_rids in *. rewrite E2, E4, E13. cbn. rewrite Eh in Hin. cbn in Hin.
+        destruct Hin as [<-|Hin]; [right; exists (FailBroken e); split; [exact H4|reflexivity]|left; exact Hin].
+    + assert (e0 = e) by (destruct Hst as [H|[H|H]]; congruence). subst e0.
+      destruct (c_queue st) as [|r q] eqn:Eq.
+      * destruct (c_reserved st) as [|x xs] eqn:Er; [injection Hs as <-|discriminate].
+        unfold closing, pending_rids. cbn. rewrite Eq, Er. repeat split; tauto.
+      * injection Hs as <-. set (s1 := set_queue q st).
+        destruct (Hcomp r (FailBroken e) s1 Es eq_refl eq_refl) as (H1 & H2 & H3 & H4).
+        destruct (complete_fields r (FailBroken e) s1) as (_&E2&_&E4&_&_&_&_&_&_&_&_&E13).
+        repeat split; try assumption.
+        intros r0 Hin. unfold pending_rids in *. rewrite E2, E4, E13. cbn. rewrite Eq in Hin.
+        apply in_app_or in Hin. destruct Hin as [Hin|[<-|Hin]].
         -- left. apply in_or_app. left. exact Hin.
-        -- right. exists FailChannel. split; [apply in_or_app; right; left; reflexivity|reflexivity].
+        -- right. exists (FailBroken e). split; [exact H4|reflexivity].
         -- left. apply in_or_app. right. exact Hin.
-      * intros r0 Hin. apply in_app_or in Hin. apply in_or_app. destruct Hin; [left|right; right]; assumption.
 Qed.
 
 Lemma run_closing ls : forall st st' e,
-  (c_status st = TearingDown e \/ c_status st = Broken e) -> run st ls = Some st' ->
-  (c_status st' = TearingDown e \/ c_status st' = Broken e) /\
+  closing e st -> run st ls = Some st' ->
+  closing e st' /\
   (forall r o, In (r, o) (c_done st) -> In (r, o) (c_done st')) /\
+  (forall r o, In (r, o) (c_done st') -> In (r, o) (c_done st) \/ broken_class o = true) /\
   (forall r, In r (pending_rids st) ->
      In r (pending_rids st') \/ exists o, In (r, o) (c_done st') /\ broken_class o = true).
 Proof.
   induction ls as [|l rest IH]; intros st st' e Hst Hr; cbn [run] in Hr.
   - injection Hr as <-. repeat split; tauto.
   - destruct (step st l) as [s1|] eqn:E; [|discriminate].
-    destruct (step_closing _ _ _ _ Hst E) as (H1 & H2 & H3 & _).
-    destruct (IH _ _ _ H1 Hr) as (J1 & J2 & J3).
-    repeat split; [exact J1|intros; apply J2; apply H2; assumption|].
-    intros r Hin. destruct (H3 r Hin) as [Hp|[o [Ho Hb]]].
-    + apply J3. exact Hp.
-    + right. exists o. split; [apply J2; exact Ho|exact Hb].
+    destruct (step_closing _ _ _ _ Hst E) as (H1 & H2 & H3 & H4).
+    destruct (IH _ _ _ H1 Hr) as (J1 & J2 & J3 & J4).
+    repeat split; [exact J1|intros; apply J2; apply H2; assumption| |].
+    + intros r o Hin. destruct (J3 r o Hin) as [Hin1|Hb]; [|right; exact Hb]. apply H3. exact Hin1.
+    + intros r Hin. destruct (H4 r Hin) as [Hp|[o [Ho Hb]]].
+      * apply J4. exact Hp.
+      * right. exists o. split; [apply J2; exact Ho|exact Hb].
 Qed.
 
 Lemma outcome_of_In r o d : NoDup (map fst d) -> In (r, o) d -> outcome_of r d = Some o.
@@ -594,27 +697,12 @@ Proof.
   - intros H. right. apply IH. exact H.
 Qed.
 
-(* ---------- C10_all_fail ---------- *)
-Lemma all_fail ctl ls1 l ls2 st1 st2 st3 e e' :
-  run (conn_init ctl) ls1 = Some st1 ->
-  step st1 l = Some st2 -> c_status st2 = TearingDown e ->
-  run st2 ls2 = Some st3 -> c_status st3 = Broken e' ->
-  e' = e /\
-  forall r, In r (pending_rids st2) ->
-    exists o, outcome_of r (c_done st3) = Some o /\ broken_class o = true.
+Lemma outcome_of_none r d : ~ In r (map fst d) -> outcome_of r d = None.
 Proof.
-  intros R1 S2 T2 R3 B3.
-  assert (I2 : Inv st2). { eapply inv_step; [|exact S2]. eapply inv_run; [apply inv_init|exact R1]. }
-  assert (I3 : Inv st3) by (eapply inv_run; eassumption).
-  destruct (run_closing _ _ _ e (or_introl T2) R3) as (H1 & H2 & H3).
-  assert (Ee : e' = e). { destruct H1 as [H1|H1]; rewrite H1 in B3; [discriminate|]. injection B3 as <-. reflexivity. }
-  split; [exact Ee|]. intros r Hin.
-  destruct (H3 r Hin) as [Hp|[o [Ho Hb]]].
-  - destruct (inv_broken _ I3 _ B3) as [Eh Eq]. unfold pending_rids in Hp. rewrite Eh, Eq in Hp. destruct Hp.
-  - exists o. split; [|exact Hb]. apply outcome_of_In; [|exact Ho]. destruct (inv_acct _ I3) as (_ & Hd & _). exact Hd.
+  induction d as [|[r' o'] t IH]; cbn [map fst In outcome_of]; intros H; [reflexivity|].
+  destruct (r' =? r) eqn:E; [apply N.eqb_eq in E; tauto|]. apply IH. tauto.
 Qed.
 
-(* a request submitted to a connection that is no longer open fails at once with ChannelError *)
 Lemma outcome_of_snoc r o d : ~ In r (map fst d) -> outcome_of r (d ++ [(r, o)]) = Some o.
 Proof.
   induction d as [|[r' o'] t IH]; cbn [map fst In outcome_of app]; intros H.
@@ -622,55 +710,166 @@ Proof.
   - destruct (r' =? r) eqn:E; [apply N.eqb_eq in E; tauto|]. apply IH. tauto.
 Qed.
 
+Lemma outcome_of_snoc_other r r' o d : r' <> r -> outcome_of r (d ++ [(r', o)]) = outcome_of r d.
+Proof.
+  intros Hne. induction d as [|[r1 o1] t IH]; cbn [outcome_of app].
+  - destruct (r' =? r) eqn:E; [apply N.eqb_eq in E; tauto|reflexivity].
+  - destruct (r1 =? r); [reflexivity|exact IH].
+Qed.
+
+(* ---------- C10_all_fail ---------- *)
+Lemma all_fail ctl ls1 l ls2 st1 st2 st3 e e' :
+  run (conn_init ctl) ls1 = Some st1 ->
+  step st1 l = Some st2 -> c_status st2 = TearingDown e ->
+  run st2 ls2 = Some st3 -> c_status st3 = Broken e' ->
+  e' = e /\
+  (forall r, In r (pending_rids st2) ->
+     exists o, outcome_of r (c_done st3) = Some o /\ broken_class o = true) /\
+  (forall r o, outcome_of r (c_done st3) = Some o -> In (r, o) (c_done st2) \/ broken_class o = true).
+Proof.
+  intros R1 S2 T2 R3 B3.
+  assert (I2 : Inv st2). { eapply inv_step; [|exact S2]. eapply inv_run; [apply inv_init|exact R1]. }
+  assert (I3 : Inv st3) by (eapply inv_run; eassumption).
+  destruct (run_closing _ _ _ e (or_introl T2) R3) as (H1 & H2 & H3 & H4).
+  assert (Ee : e' = e). { destruct H1 as [H1|[H1|H1]]; rewrite H1 in B3; try discriminate. injection B3 as <-. reflexivity. }
+  split; [exact Ee|]. split.
+  - intros r Hin. destruct (H4 r Hin) as [Hp|[o [Ho Hb]]].
+    + pose proof (inv_status _ I3) as Hs. rewrite B3 in Hs. destruct Hs as (Eh & Eq & Er).
+      unfold pending_rids in Hp. rewrite Eh, Eq, Er in Hp. destruct Hp.
+    + exists o. split; [|exact Hb]. apply outcome_of_In; [|exact Ho]. destruct (inv_acct _ I3) as (_ & Hd & _). exact Hd.
+  - intros r o Ho. apply outcome_of_some_In in Ho. apply H3. exact Ho.
+Qed.
+
+(* a request submitted after receiver.close() fails at once with ChannelError *)
 Lemma later_submit_fails ctl st r st' :
-  reachable ctl st -> c_status st <> Open -> step st (Submit r) = Some st' ->
+  reachable ctl st -> chan_closed st = true -> step st (Reserve r) = Some st' ->
   outcome_of r (c_done st') = Some FailChannel /\ pending_rids st' = pending_rids st.
 Proof.
-  intros HR Hno Hs. apply inv_reachable in HR. unfold step in Hs.
+  intros HR Hc Hs. apply inv_reachable in HR. unfold step in Hs.
   destruct (nmem r (c_submitted st)) eqn:En; [discriminate|]. apply nmem_false in En.
-  change (is_open (set_submitted (c_submitted st ++ [r]) st)) with (is_open st) in Hs.
-  assert (Ho : is_open st = false). { unfold is_open. destruct (c_status st); [tauto|reflexivity|reflexivity]. }
-  rewrite Ho in Hs. injection Hs as <-.
-  destruct (complete_fields r FailChannel (set_submitted (c_submitted st ++ [r]) st)) as (E1&E2&E3&E4&E5&E6&E7&E8&E9&E10&E11&E12).
-  unfold pending_rids. rewrite E2, E4, E6. cbn. split; [|reflexivity].
+  change (chan_closed (set_submitted (c_submitted st ++ [r]) st)) with (chan_closed st) in Hs.
+  rewrite Hc in Hs. injection Hs as <-.
+  destruct (complete_fields r FailChannel (set_submitted (c_submitted st ++ [r]) st)) as (E1&E2&E3&E4&E5&E6&E7&E8&E9&E10&E11&E12&E13).
+  unfold pending_rids. rewrite E2, E4, E6, E13. cbn. split; [|reflexivity].
   apply outcome_of_snoc. intros Hin. destruct (inv_acct _ HR) as (_ & _ & _ & Hds & _). apply Hds in Hin. tauto.
 Qed.
 
-(* ---------- the teardown terminates ---------- *)
-Lemma td_progress st e : c_status st = TearingDown e ->
-  exists st', step st TdStep = Some st' /\ (td_measure st' < td_measure st)%nat /\
-    ((c_status st' = TearingDown e /\ td_measure st' = pred (td_measure st)) \/
-     (c_status st' = Broken e /\ pending_rids st' = [] /\ c_err_sent st' = true /\ td_measure st = 1%nat)).
+(* ... and one submitted while the handlers are still being failed is accepted and then failed by the drain *)
+Lemma submit_during_teardown ctl st e r st' :
+  reachable ctl st -> c_status st = TearingDown e -> step st (Reserve r) = Some st' ->
+  c_status st' = TearingDown e /\ In r (pending_rids st').
 Proof.
-  intros Hst. unfold step. rewrite Hst.
-  assert (Hc : forall r o s1, c_status s1 = TearingDown e -> c_status (complete r o s1) = TearingDown e).
-  { intros r o s1 H1. destruct (complete_status r o s1) as [H|[H _]]; [rewrite H; exact H1|]. rewrite H1 in H. discriminate. }
-  destruct (c_queue st) as [|r q] eqn:Eq.
-  - destruct (c_handlers st) as [|[s r] h] eqn:Eh.
-    + eexists. split; [reflexivity|]. unfold td_measure, pending_rids. cbn. rewrite Hst, Eq, Eh. cbn.
-      split; [lia|]. right. repeat split; reflexivity.
-    + eexists. split; [reflexivity|].
-      destruct (complete_fields r (FailBroken e) (set_handlers h st)) as (E1&E2&E3&E4&E5&E6&E7&E8&E9&E10&E11&E12).
-      unfold td_measure. rewrite (Hc r (FailBroken e) (set_handlers h st)) by (cbn; exact Hst).
-      rewrite Hst, E2, E4. cbn. rewrite ?Eq, ?Eh. cbn. split; [lia|]. left. split; reflexivity.
-  - eexists. split; [reflexivity|].
-    destruct (complete_fields r FailChannel (set_queue q st)) as (E1&E2&E3&E4&E5&E6&E7&E8&E9&E10&E11&E12).
-    unfold td_measure. rewrite (Hc r FailChannel (set_queue q st)) by (cbn; exact Hst).
-    rewrite Hst, E2, E4. cbn. rewrite ?Eq. cbn. split; [lia|]. left. split; [reflexivity|lia].
+  intros HR Hc Hs. unfold step in Hs.
+  destruct (nmem r (c_submitted st)) eqn:En; [discriminate|].
+  change (chan_closed (set_submitted (c_submitted st ++ [r]) st)) with (chan_closed st) in Hs.
+  unfold chan_closed in Hs. rewrite Hc in Hs. injection Hs as <-. cbn. split; [exact Hc|].
+  unfold pending_rids. cbn. rewrite !app_assoc. apply in_or_app. right. left. reflexivity.
 Qed.
 
-Lemma td_terminates n : forall st e, c_status st = TearingDown e -> td_measure st = S n ->
-  exists st', run st (repeat TdStep (S n)) = Some st' /\ c_status st' = Broken e /\
-              pending_rids st' = [] /\ c_err_sent st' = true.
+(* ---------- the teardown terminates ---------- *)
+Lemma td_next_progress st e : Inv st -> c_status st = TearingDown e \/ c_status st = Draining e ->
+  exists st', td_next st = Some st' /\ (td_measure st' < td_measure st)%nat /\
+    (c_status st' = TearingDown e \/ c_status st' = Draining e \/
+     (c_status st' = Broken e /\ pending_rids st' = [] /\ c_err_sent st' = true)).
 Proof.
-  induction n as [|k IH]; intros st e Hst Hm; destruct (td_progress _ _ Hst) as (s1 & S1 & Hlt & Hcase).
-  - destruct Hcase as [[H1 H2]|(H1 & H2 & H3 & _)].
-    + rewrite Hm in H2. cbn in H2. unfold td_measure in H2. rewrite H1 in H2. discriminate.
-    + exists s1. cbn [repeat run]. rewrite S1. repeat split; assumption.
-  - destruct Hcase as [[H1 H2]|(H1 & H2 & H3 & H4)].
-    + rewrite Hm in H2. cbn in H2. destruct (IH _ _ H1 H2) as (s2 & R2 & B2).
-      exists s2. change (repeat TdStep (S (S k))) with (TdStep :: repeat TdStep (S k)). cbn [run]. rewrite S1. split; [exact R2|exact B2].
-    + rewrite Hm in H4. discriminate.
+  intros HI Hst. unfold td_next, step.
+  assert (Hc : forall r o s1, closing e s1 -> c_status (complete r o s1) = c_status s1).
+  { intros. apply complete_closing with (e := e). assumption. }
+  destruct Hst as [Hst|Hst]; rewrite Hst.
+  - destruct (c_handlers st) as [|[s r] h] eqn:Eh.
+    + eexists. split; [reflexivity|]. unfold td_measure. cbn. rewrite Hst, Eh. cbn. split; [lia|]. right. left. reflexivity.
+    + eexists. split; [reflexivity|].
+      destruct (complete_fields r (FailBroken e) (set_handlers h st)) as (E1&E2&E3&E4&E5&E6&E7&E8&E9&E10&E11&E12&E13).
+      assert (Hs1 : c_status (complete r (FailBroken e) (set_handlers h st)) = TearingDown e).
+      { rewrite Hc; [exact Hst|left; exact Hst]. }
+      unfold td_measure. rewrite Hs1, Hst, E2, E4, E13. cbn. rewrite Eh. cbn. split; [lia|]. left. reflexivity.
+  - pose proof (inv_status _ HI) as Hok. rewrite Hst in Hok. cbn in Hok.
+    destruct (c_queue st) as [|r q] eqn:Eq.
+    + destruct (c_reserved st) as [|x xs] eqn:Er.
+      * eexists. split; [reflexivity|]. unfold td_measure, pending_rids. cbn. rewrite Hst, Eq, Er, Hok. cbn.
+        split; [lia|]. right. right. repeat split; reflexivity.
+      * (* the router waits in recv(): the sender that holds a slot pushes *)
+        cbn [nmem existsb]. rewrite N.eqb_refl. cbn [orb]. eexists. split; [reflexivity|].
+        unfold td_measure. cbn. rewrite Hst, Eq. cbn [nremove]. rewrite N.eqb_refl. cbn. rewrite ?Er. cbn.
+        split; [lia|]. right. left. reflexivity.
+    + eexists. split; [reflexivity|].
+      destruct (complete_fields r (FailBroken e) (set_queue q st)) as (E1&E2&E3&E4&E5&E6&E7&E8&E9&E10&E11&E12&E13).
+      assert (Hs1 : c_status (complete r (FailBroken e) (set_queue q st)) = Draining e).
+      { rewrite Hc; [exact Hst|right; left; exact Hst]. }
+      unfold td_measure. rewrite Hs1, Hst, E4, E13. cbn. rewrite Eq. cbn. split; [lia|]. right. left. reflexivity.
+Qed.
+
+Lemma td_next_step st st' : td_next st = Some st' ->
+  step st TdStep = Some st' \/ exists r, step st (Push r) = Some st'.
+Proof.
+  unfold td_next. destruct (step st TdStep) as [s|]; [intros H; left; exact H|].
+  destruct (c_reserved st) as [|r rs]; [discriminate|]. intros H. right. exists r. exact H.
+Qed.
+
+Lemma td_next_inv st st' : Inv st -> td_next st = Some st' -> Inv st'.
+Proof. intros HI H. destruct (td_next_step _ _ H) as [Hs|[r Hs]]; eapply inv_step; eassumption. Qed.
+
+Lemma td_terminates n : forall st e, Inv st ->
+  c_status st = TearingDown e \/ c_status st = Draining e -> (td_measure st <= n)%nat ->
+  c_status (teardown n st) = Broken e /\ pending_rids (teardown n st) = [] /\ c_err_sent (teardown n st) = true.
+Proof.
+  induction n as [|k IH]; intros st e HI Hst Hm.
+  - exfalso. unfold td_measure in Hm. destruct Hst as [H|H]; rewrite H in Hm; lia.
+  - destruct (td_next_progress _ _ HI Hst) as (s1 & S1 & Hlt & Hcase). cbn [teardown]. rewrite S1.
+    destruct Hcase as [H1|[H1|(H1 & H2 & H3)]].
+    + apply IH; [eapply td_next_inv; eassumption|left; exact H1|lia].
+    + apply IH; [eapply td_next_inv; eassumption|right; exact H1|lia].
+    + assert (Hfix : teardown k s1 = s1).
+      { destruct k; cbn [teardown]; [reflexivity|]. unfold td_next, step. rewrite H1.
+        assert (Er : c_reserved s1 = []).
+        { unfold pending_rids in H2. apply app_eq_nil in H2. destruct H2 as [_ H2]. apply app_eq_nil in H2. tauto. }
+        rewrite Er. reflexivity. }
+      rewrite Hfix. repeat split; assumption.
+Qed.
+
+Lemma teardown_run fuel : forall st, exists ls, run st ls = Some (teardown fuel st) /\
+  Forall (fun l => l = TdStep \/ exists r, l = Push r) ls /\ (List.length ls <= fuel)%nat.
+Proof.
+  induction fuel as [|k IH]; intros st; cbn [teardown].
+  - exists []. repeat split; [constructor|cbn; lia].
+  - destruct (td_next st) as [s1|] eqn:E.
+    + destruct (IH s1) as (ls & H & HF & HL). destruct (td_next_step _ _ E) as [Hs|[r Hs]].
+      * exists (TdStep :: ls). cbn [run]. rewrite Hs. repeat split; [exact H|constructor; [left; reflexivity|exact HF]|cbn; lia].
+      * exists (Push r :: ls). cbn [run]. rewrite Hs. repeat split; [exact H|constructor; [right; exists r; reflexivity|exact HF]|cbn; lia].
+    + exists []. repeat split; [constructor|cbn; lia].
+Qed.
+
+(* in Draining no step makes the remaining work grow *)
+Lemma draining_monotone st l st' e : c_status st = Draining e -> step st l = Some st' ->
+  (td_measure st' <= td_measure st)%nat.
+Proof.
+  intros Hst Hs.
+  assert (Hno : is_open st = false) by (unfold is_open; rewrite Hst; reflexivity).
+  assert (Hcl : closing e st) by (right; left; exact Hst).
+  destruct l as [r|r|r|so|bs| |k| |r| |]; unfold step in Hs.
+  - destruct (nmem r (c_submitted st)); [discriminate|].
+    change (chan_closed (set_submitted (c_submitted st ++ [r]) st)) with (chan_closed st) in Hs.
+    unfold chan_closed in Hs. rewrite Hst in Hs. injection Hs as <-.
+    set (s1 := set_submitted (c_submitted st ++ [r]) st).
+    destruct (complete_fields r FailChannel s1) as (_&E2&_&E4&_&_&_&_&_&_&_&_&E13).
+    unfold td_measure. rewrite (complete_closing e r FailChannel s1) by exact Hcl. cbn. rewrite Hst, E4, E13. cbn. lia.
+  - destruct (nmem r (c_reserved st)) eqn:En; [|discriminate]. apply nmem_In in En. injection Hs as <-.
+    destruct (nremove_split _ _ En) as (l1 & l2 & El & Er).
+    unfold td_measure. cbn. rewrite Hst, Er, El, !app_length. cbn. lia.
+  - destruct (nmem r (c_submitted st)); [discriminate|]. rewrite Hno in Hs. discriminate.
+  - rewrite Hno in Hs. discriminate.
+  - rewrite Hno in Hs. injection Hs as <-. lia.
+  - rewrite Hno in Hs. discriminate.
+  - rewrite Hno in Hs. discriminate.
+  - rewrite Hno in Hs. discriminate.
+  - destruct (nmem r (c_submitted st) && negb (nmem r (map fst (c_done st))) && negb (nmem r (c_cancelled st))); [|discriminate].
+    injection Hs as <-. unfold td_measure. cbn. lia.
+  - rewrite Hno in Hs. discriminate.
+  - rewrite Hst in Hs. destruct (c_queue st) as [|r q] eqn:Eq.
+    + destruct (c_reserved st) as [|x xs] eqn:Er; [injection Hs as <-|discriminate]. unfold td_measure. cbn. lia.
+    + injection Hs as <-. set (s1 := set_queue q st).
+      destruct (complete_fields r (FailBroken e) s1) as (_&E2&_&E4&_&_&_&_&_&_&_&_&E13).
+      unfold td_measure. rewrite (complete_closing e r (FailBroken e) s1) by exact Hcl. cbn. rewrite Hst, E4, E13, Eq. cbn. lia.
 Qed.
 
 (* ---------- nothing is left behind ---------- *)
@@ -679,8 +878,8 @@ Lemma none_left ctl st e r :
   (exists o, outcome_of r (c_done st) = Some o) \/ In r (c_cancelled st).
 Proof.
   intros HR HB Hin. apply inv_reachable in HR. destruct (inv_acct _ HR) as (_ & Hd & _ & _ & Hs).
-  destruct (inv_broken _ HR _ HB) as [Eh Eq].
-  destruct (Hs r Hin) as [H|[H|H]]; [|unfold pending_rids in H; rewrite Eh, Eq in H; destruct H|right; exact H].
+  pose proof (inv_status _ HR) as Hok. rewrite HB in Hok. destruct Hok as (Eh & Eq & Er).
+  destruct (Hs r Hin) as [H|[H|H]]; [|unfold pending_rids in H; rewrite Eh, Eq, Er in H; destruct H|right; exact H].
   left. apply in_map_iff in H. destruct H as [[r' o] [E Ho]]. cbn in E. subst r'.
   exists o. apply outcome_of_In; assumption.
 Qed.
@@ -839,29 +1038,13 @@ Proof.
     + apply IH.
 Qed.
 
-Lemma teardown_run fuel : forall st, exists ls', run st ls' = Some (teardown fuel st).
-Proof.
-  induction fuel as [|k IH]; intros st; cbn [teardown].
-  - exists []. reflexivity.
-  - destruct (step st TdStep) as [s1|] eqn:E.
-    + destruct (IH s1) as [ls' H]. exists (TdStep :: ls'). cbn [run]. rewrite E. exact H.
-    + exists []. reflexivity.
-Qed.
-
 Lemma simulate_reachable keep t : reachable false (simulate keep t).
 Proof.
   unfold simulate, reachable.
   destruct (run_lenient_run (labels_of keep t) (conn_init false)) as [l1 H1].
   destruct (teardown_run (td_measure (run_lenient (conn_init false) (labels_of keep t)))
-                         (run_lenient (conn_init false) (labels_of keep t))) as [l2 H2].
+                         (run_lenient (conn_init false) (labels_of keep t))) as (l2 & H2 & _).
   exists (l1 ++ l2). rewrite run_app, H1. exact H2.
-Qed.
-
-Lemma teardown_repeat n : forall st st', run st (repeat TdStep n) = Some st' -> teardown n st = st'.
-Proof.
-  induction n as [|k IH]; intros st st' H; cbn [repeat run teardown] in *.
-  - injection H as <-. reflexivity.
-  - destruct (step st TdStep) as [s1|]; [apply IH; exact H|discriminate].
 Qed.
 
 (* after [simulate] the connection is either still open or completely torn down *)
@@ -870,24 +1053,18 @@ Lemma simulate_settled keep t :
   exists e, c_status (simulate keep t) = Broken e /\ pending_rids (simulate keep t) = [].
 Proof.
   unfold simulate. set (st := run_lenient (conn_init false) (labels_of keep t)).
-  destruct (c_status st) as [|e|e] eqn:Es.
+  assert (HI : Inv st).
+  { destruct (run_lenient_run (labels_of keep t) (conn_init false)) as [l1 H1]. eapply inv_run; [apply inv_init|exact H1]. }
+  destruct (c_status st) as [|e|e|e] eqn:Es.
   - left. unfold td_measure. rewrite Es. cbn. exact Es.
-  - right. exists e.
-    assert (Hm : exists n, td_measure st = S n). { unfold td_measure. rewrite Es. eexists. reflexivity. }
-    destruct Hm as [n Hm]. destruct (td_terminates n st e Es Hm) as (st' & R & B & P & _).
-    rewrite Hm. rewrite (teardown_repeat _ _ _ R). split; assumption.
+  - right. exists e. destruct (td_terminates (td_measure st) st e HI (or_introl Es) (le_n _)) as (B & P & _). tauto.
+  - right. exists e. destruct (td_terminates (td_measure st) st e HI (or_intror Es) (le_n _)) as (B & P & _). tauto.
   - right. exists e. unfold td_measure. rewrite Es. cbn. split; [exact Es|].
-    assert (HI : Inv st).
-    { destruct (run_lenient_run (labels_of keep t) (conn_init false)) as [l1 H1]. eapply inv_run; [apply inv_init|exact H1]. }
-    destruct (inv_broken _ HI _ Es) as [Eh Eq]. unfold pending_rids. rewrite Eh, Eq. reflexivity.
+    pose proof (inv_status _ HI) as Hok. rewrite Es in Hok. destruct Hok as (Eh & Eq & Er).
+    unfold pending_rids. rewrite Eh, Eq, Er. reflexivity.
 Qed.
 
-Lemma accounting ctl st : reachable ctl st ->
-  Acct (pending_rids st) (c_done st) (c_submitted st) (c_cancelled st).
-Proof. intros H. exact (inv_acct _ (inv_reachable _ _ H)). Qed.
-
-(* the peer can cut after any chunk: in an open state [Recv bs] is always enabled, and if the
-   connection is still open afterwards [Eof] puts it into teardown *)
+(* the peer can cut after any chunk *)
 Lemma cut_anywhere st bs : c_status st = Open ->
   exists st1, step st (Recv bs) = Some st1 /\
     (c_status st1 <> Open \/
@@ -895,38 +1072,171 @@ Lemma cut_anywhere st bs : c_status st = Open ->
 Proof.
   intros Ho. apply is_open_status in Ho. unfold step at 1. rewrite Ho. eexists. split; [reflexivity|].
   match goal with |- c_status ?s <> Open \/ _ => set (s1 := s) end.
-  destruct (c_status s1) eqn:Es; [|left; discriminate|left; discriminate].
+  destruct (c_status s1) eqn:Es; [|left; discriminate|left; discriminate|left; discriminate].
   right. unfold step. assert (Ho1 : is_open s1 = true) by (apply is_open_status; exact Es). rewrite Ho1.
   eexists. eexists. split; [reflexivity|]. rewrite fault_status, Es.
   split; [reflexivity|]. destruct (List.length (c_rbuf s1) <? 9)%nat; tauto.
 Qed.
 
+Lemma step_submitted_mono st l st' r : step st l = Some st' -> In r (c_submitted st) -> In r (c_submitted st').
+Proof.
+  intros Hs Hin.
+  assert (Hd : forall n s, In r (c_submitted s) -> In r (c_submitted (drain n s))).
+  { induction n as [|k IH]; intros s Hr; cbn [drain]; [exact Hr|].
+    destruct (is_open s); [|exact Hr]. destruct (parse_frame (c_rbuf s)) as [|e|f rest]; [exact Hr| |].
+    - destruct (fault_fields (EHeader e) s) as (_&_&_&_&_&_&E7&_). rewrite E7. exact Hr.
+    - apply IH. unfold dispatch. cbn [c_consumed set_consumed c_control c_events c_orphans c_handlers set_rbuf].
+      destruct (32768 <=? f_stream f).
+      + destruct (f_stream f =? 65535); [destruct (c_control s); [destruct (f_opcode f =? 12)|]|]; cbn; try exact Hr.
+        match goal with |- In r (c_submitted (fault ?e ?x)) => destruct (fault_fields e x) as (_&_&_&_&_&_&E7&_); rewrite E7 end. exact Hr.
+      + destruct (nmem (f_stream f) (c_orphans s)); [exact Hr|].
+        destruct (find_stream (f_stream f) (c_handlers s)).
+        * match goal with |- In r (c_submitted (complete ?a ?b ?x)) => destruct (complete_fields a b x) as (_&_&_&_&_&_&E7&_); rewrite E7 end. exact Hr.
+        * match goal with |- In r (c_submitted (fault ?e ?x)) => destruct (fault_fields e x) as (_&_&_&_&_&_&E7&_); rewrite E7 end. exact Hr. }
+  assert (Hc : forall a b x, In r (c_submitted x) -> In r (c_submitted (complete a b x))).
+  { intros a b x Hx. destruct (complete_fields a b x) as (_&_&_&_&_&_&E7&_). rewrite E7. exact Hx. }
+  assert (Hf : forall e x, In r (c_submitted x) -> In r (c_submitted (fault e x))).
+  { intros e x Hx. destruct (fault_fields e x) as (_&_&_&_&_&_&E7&_). rewrite E7. exact Hx. }
+  destruct l as [r0|r0|r0|so|bs| |k| |r0| |]; unfold step in Hs.
+  - destruct (nmem r0 (c_submitted st)); [discriminate|].
+    change (chan_closed (set_submitted (c_submitted st ++ [r0]) st)) with (chan_closed st) in Hs.
+    destruct (chan_closed st); injection Hs as <-; [apply Hc|]; cbn; apply in_or_app; left; exact Hin.
+  - destruct (nmem r0 (c_reserved st)); [|discriminate]. injection Hs as <-. exact Hin.
+  - destruct (nmem r0 (c_submitted st)); [discriminate|]. destruct (is_open st); [|discriminate].
+    destruct (c_ka st); [discriminate|]. injection Hs as <-. cbn. apply in_or_app; left; exact Hin.
+  - destruct (is_open st); [|discriminate]. destruct (c_queue st) as [|x q]; [discriminate|]. destruct so as [s|].
+    + destruct ((s <? 32768) && negb (nmem s (map fst (c_handlers st))) && negb (nmem s (c_orphans st))); [|discriminate].
+      injection Hs as <-. exact Hin.
+    + destruct (32768 <=? N.of_nat (List.length (c_handlers st) + List.length (c_orphans st))); [|discriminate].
+      injection Hs as <-. apply Hc. exact Hin.
+  - destruct (is_open st); injection Hs as <-; [|exact Hin].
+    change (In r (c_submitted (drain (S (List.length (c_rbuf st ++ bs)))
+                   (set_received (c_received st ++ bs) (set_rbuf (c_rbuf st ++ bs) st))))).
+    apply Hd. exact Hin.
+  - destruct (is_open st); [injection Hs as <-|discriminate]. apply Hf. exact Hin.
+  - destruct (is_open st); [injection Hs as <-|discriminate]. apply Hf. exact Hin.
+  - destruct (is_open st); [|discriminate]. destruct (c_ka st); [injection Hs as <-|discriminate]. apply Hf. exact Hin.
+  - destruct (nmem r0 (c_submitted st) && negb (nmem r0 (map fst (c_done st))) && negb (nmem r0 (c_cancelled st))); [|discriminate].
+    injection Hs as <-. exact Hin.
+  - destruct (is_open st); [|discriminate]. destruct (c_notices st) as [|x n]; [discriminate|].
+    cbn [c_handlers set_notices c_orphans] in Hs. destruct (find_rid x (c_handlers st)); injection Hs as <-; exact Hin.
+  - destruct (c_status st) as [|e|e|e]; try discriminate.
+    + destruct (c_handlers st) as [|[s x] h]; injection Hs as <-; [exact Hin|apply Hc; exact Hin].
+    + destruct (c_queue st) as [|x q].
+      * destruct (c_reserved st); [injection Hs as <-|discriminate]. exact Hin.
+      * injection Hs as <-. apply Hc. exact Hin.
+Qed.
+
+Lemma run_submitted_mono ls : forall st st' r, run st ls = Some st' -> In r (c_submitted st) -> In r (c_submitted st').
+Proof.
+  induction ls as [|l rest IH]; intros st st' r Hr Hin; cbn [run] in Hr.
+  - injection Hr as <-. exact Hin.
+  - destruct (step st l) as [s1|] eqn:E; [|discriminate]. eapply IH; [exact Hr|]. eapply step_submitted_mono; eassumption.
+Qed.
+
 (* top-level corollary: whatever happened before, once any step has put the connection into
-   teardown, [td_measure] teardown steps complete every request ever submitted *)
+   teardown, finishing the teardown (router steps, and pushes of senders that hold a slot)
+   completes every request ever submitted, within [td_measure] steps *)
 Lemma fault_completes_all ctl ls l st st2 e :
   run (conn_init ctl) ls = Some st -> step st l = Some st2 -> c_status st2 = TearingDown e ->
-  exists st3, run st2 (repeat TdStep (td_measure st2)) = Some st3 /\ c_status st3 = Broken e /\
-    c_err_sent st3 = true /\
+  exists fin st3, run st2 fin = Some st3 /\ Forall (fun l => l = TdStep \/ exists r, l = Push r) fin /\
+    (List.length fin <= td_measure st2)%nat /\
+    c_status st3 = Broken e /\ c_err_sent st3 = true /\
     forall r, In r (c_submitted st2) ->
       (exists o, outcome_of r (c_done st3) = Some o) \/ In r (c_cancelled st3).
 Proof.
   intros R Hst T.
-  assert (Hm : exists n, td_measure st2 = S n). { unfold td_measure. rewrite T. eexists. reflexivity. }
-  destruct Hm as [n Hm]. destruct (td_terminates n st2 e T Hm) as (st3 & R3 & B3 & P3 & E3).
-  exists st3. rewrite Hm. repeat split; try assumption.
+  assert (I2 : Inv st2). { eapply inv_step; [|exact Hst]. eapply inv_run; [apply inv_init|exact R]. }
+  destruct (td_terminates (td_measure st2) st2 e I2 (or_introl T) (le_n _)) as (B3 & P3 & E3).
+  destruct (teardown_run (td_measure st2) st2) as (fin & R3 & HF & HL).
+  exists fin, (teardown (td_measure st2) st2). repeat split; try assumption.
   intros r Hin.
-  assert (HR : reachable ctl st3).
-  { exists (ls ++ l :: repeat TdStep (S n)). rewrite run_app, R. cbn [run]. rewrite Hst. exact R3. }
-  apply (none_left ctl st3 e r HR B3).
-  (* submitted only grows *)
-  clear - R3 Hin. revert st2 R3 Hin. generalize (S n) as k.
-  induction k as [|k IH]; intros st2 R3 Hin; cbn [repeat run] in R3.
-  - injection R3 as <-. exact Hin.
-  - destruct (step st2 TdStep) as [s|] eqn:E; [|discriminate]. apply (IH s R3).
-    unfold step in E. destruct (c_status st2) as [|e0|e0]; try discriminate.
-    destruct (c_queue st2) as [|r0 q].
-    + destruct (c_handlers st2) as [|[s0 r0] h]; injection E as <-.
-      * exact Hin.
-      * destruct (complete_fields r0 (FailBroken e0) (set_handlers h st2)) as (_&_&_&_&_&_&E7&_). rewrite E7. exact Hin.
-    + injection E as <-. destruct (complete_fields r0 FailChannel (set_queue q st2)) as (_&_&_&_&_&_&E7&_). rewrite E7. exact Hin.
+  assert (HR : reachable ctl (teardown (td_measure st2) st2)).
+  { exists (ls ++ l :: fin). rewrite run_app, R. cbn [run]. rewrite Hst. exact R3. }
+  apply (none_left ctl _ e r HR B3). eapply run_submitted_mono; eassumption.
 Qed.
+
+(* ---------- what the fix of /repo bbe7c96 repaired ---------- *)
+(* On a broken connection nothing ever takes a task out of the queue again. *)
+Lemma broken_stuck st l st' e r :
+  c_status st = Broken e -> In r (c_queue st) -> In r (c_submitted st) -> outcome_of r (c_done st) = None ->
+  step st l = Some st' ->
+  c_status st' = Broken e /\ In r (c_queue st') /\ In r (c_submitted st') /\ outcome_of r (c_done st') = None.
+Proof.
+  intros Hst Hq Hsub Ho Hs.
+  assert (Hno : is_open st = false) by (unfold is_open; rewrite Hst; reflexivity).
+  assert (Hcl : closing e st) by (right; right; exact Hst).
+  destruct l as [r0|r0|r0|so|bs| |k| |r0| |]; unfold step in Hs.
+  - destruct (nmem r0 (c_submitted st)) eqn:En; [discriminate|]. apply nmem_false in En.
+    change (chan_closed (set_submitted (c_submitted st ++ [r0]) st)) with (chan_closed st) in Hs.
+    unfold chan_closed in Hs. rewrite Hst in Hs. injection Hs as <-.
+    set (s1 := set_submitted (c_submitted st ++ [r0]) st).
+    destruct (complete_fields r0 FailChannel s1) as (_&_&_&E4&_&E6&E7&_).
+    rewrite (complete_closing e r0 FailChannel s1) by exact Hcl. rewrite E4, E6, E7. cbn.
+    repeat split; [exact Hst|exact Hq|apply in_or_app; left; exact Hsub|].
+    rewrite outcome_of_snoc_other; [exact Ho|]. intros ->. tauto.
+  - destruct (nmem r0 (c_reserved st)); [|discriminate]. injection Hs as <-. cbn.
+    repeat split; [exact Hst|apply in_or_app; left; exact Hq|exact Hsub|exact Ho].
+  - destruct (nmem r0 (c_submitted st)); [discriminate|]. rewrite Hno in Hs. discriminate.
+  - rewrite Hno in Hs. discriminate.
+  - rewrite Hno in Hs. injection Hs as <-. tauto.
+  - rewrite Hno in Hs. discriminate.
+  - rewrite Hno in Hs. discriminate.
+  - rewrite Hno in Hs. discriminate.
+  - destruct (nmem r0 (c_submitted st) && negb (nmem r0 (map fst (c_done st))) && negb (nmem r0 (c_cancelled st))); [|discriminate].
+    injection Hs as <-. cbn. tauto.
+  - rewrite Hno in Hs. discriminate.
+  - rewrite Hst in Hs. discriminate.
+Qed.
+
+Lemma broken_stuck_run ls : forall st st' e r,
+  c_status st = Broken e -> In r (c_queue st) -> In r (c_submitted st) -> outcome_of r (c_done st) = None ->
+  run st ls = Some st' -> In r (c_queue st') /\ outcome_of r (c_done st') = None.
+Proof.
+  induction ls as [|l rest IH]; intros st st' e r H1 H2 H3 H4 Hr; cbn [run] in Hr.
+  - injection Hr as <-. tauto.
+  - destruct (step st l) as [s1|] eqn:E; [|discriminate].
+    destruct (broken_stuck _ _ _ _ _ H1 H2 H3 H4 E) as (J1 & J2 & J3 & J4). eapply IH; eassumption.
+Qed.
+
+(* With the router as it was before the fix a sender that holds a slot when the router ends is
+   stranded for ever: reachable state, old teardown, the push, and then no schedule whatsoever
+   completes the request. *)
+Definition strand_st0 : conn :=
+  run_lenient (conn_init false) [Reserve 1; Push 1; WriterTake (Some 0); Reserve 2].
+Definition strand_st1 : conn := old_finish EHeaderIo strand_st0.
+Definition strand_st2 : conn := run_lenient strand_st1 [Push 2].
+
+Lemma pre_fix_router_strands :
+  exists st r, reachable false st /\ c_status st = Open /\ c_reserved st = [r] /\
+    let st1 := old_finish EHeaderIo st in
+    c_status st1 = Broken EHeaderIo /\ c_err_sent st1 = true /\
+    exists st2, step st1 (Push r) = Some st2 /\
+      forall ls st3, run st2 ls = Some st3 -> In r (c_queue st3) /\ outcome_of r (c_done st3) = None.
+Proof.
+  exists strand_st0, 2.
+  split; [exists [Reserve 1; Push 1; WriterTake (Some 0); Reserve 2]; vm_compute; reflexivity|].
+  split; [vm_compute; reflexivity|]. split; [vm_compute; reflexivity|].
+  change (old_finish EHeaderIo strand_st0) with strand_st1. cbv zeta.
+  split; [vm_compute; reflexivity|]. split; [vm_compute; reflexivity|].
+  exists strand_st2. split; [vm_compute; reflexivity|].
+  intros ls st3 Hr.
+  apply (broken_stuck_run ls strand_st2 st3 EHeaderIo 2); [vm_compute; reflexivity|vm_compute; tauto|vm_compute; tauto|vm_compute; reflexivity|exact Hr].
+Qed.
+
+(* ... while the router as it is now fails exactly that request *)
+Lemma post_fix_router_completes :
+  match run (conn_init false) [Reserve 1; Push 1; WriterTake (Some 0); Reserve 2; Eof; TdStep; TdStep] with
+  | Some st => c_status st = Draining EHeaderIo /\ step st TdStep = None /\
+      match run st [Push 2; TdStep; TdStep] with
+      | Some st' => c_status st' = Broken EHeaderIo /\ outcome_of 2 (c_done st') = Some (FailBroken EHeaderIo) /\
+                    outcome_of 1 (c_done st') = Some (FailBroken EHeaderIo)
+      | None => False
+      end
+  | None => False
+  end.
+Proof. vm_compute. repeat split; reflexivity. Qed.
+
+Lemma accounting ctl st : reachable ctl st ->
+  Acct (pending_rids st) (c_done st) (c_submitted st) (c_cancelled st).
+Proof. intros H. exact (inv_acct _ (inv_reachable _ _ H)). Qed.
